@@ -138,6 +138,8 @@ def check(chk: Check) -> None:
                 problems2.append('the %s bound passed is %s, not int(<argument %d>)' % (name, show(t), 1 if src == a0 else 2))
     chk.require(not problems, R1, "FUNCTIONS['rand'] with 2 arguments", where, '; '.join(sorted(set(problems))) or 'number(randint(lo, hi))')
     chk.require(not problems2 and normal, R2, "FUNCTIONS['rand'] bounds", where, '; '.join(sorted(set(problems2))) or 'randint(int(a), int(b))')
+    # the draw is handed back as number(draw): that is the drawn integer only if the number class's constructor is the exact one
+    N.number_constructor(chk, R2)
 
     # ---- shuffle
     if 'shuffle' not in tab or tab['shuffle'].funcinfo(F) is None:
